@@ -163,6 +163,12 @@ def run(ctx):
         rating = T(('pre', (('obj', 1), ('f', 'pwr_out_max'))))
         k = b.fid + '|ElectricDrivetrain'
         need(ctx, an, k + '.|req|<=rating', 'drivetrain power within rating in both directions', req.abs().le(rating))
+        # the part of a braking request that is regenerated is clamped at the published (mechanical) regeneration limit; the rest is
+        # dynamic braking — never more regeneration than was published, whatever the efficiency
+        prove(ctx, 'C09-4.bound', k + '.regen<=published', an, 'le', -sv.post('pwr_mech_prop_out'), sv.pre('pwr_mech_regen_max'),
+              facts=[sv.pre('pwr_mech_regen_max').ge(0)], assume=POWERTRAIN_ASSUME, note='-pwr_mech_prop_out <= pwr_mech_regen_max')
+        prove(ctx, 'C09-4.bound', k + '.regen clamp', an, 'eq', sv.post('pwr_mech_prop_out'), T(an.arg('pwr_out_req')).max(-sv.pre('pwr_mech_regen_max')),
+              assume=POWERTRAIN_ASSUME, note='pwr_mech_prop_out = max(request, -published regeneration limit)')
     for b in inv.writers('ElectricDrivetrainState', 'pwr_mech_regen_max'):
         if is_raw_setter(b): continue
         an = ana(ctx, 'C09-1.guard', b)
